@@ -29,6 +29,9 @@ CLinearDirect == {Mk(Flags(FALSE, FALSE, p), FALSE, 0, 0, Obj("linear", FALSE, "
 CSelect == {Mk(f, TRUE, 0, 3000, Obj("func", TRUE, d1, 0), Obj("func", TRUE, d2, 0)) :
                 f \in AllFlags, d1 \in {"proposer"}, d2 \in {"attester", "randao"}}
 \* corners: rounds <= 0 as coded
+\* one proposer instance with genesis such that the duty starts at the clock's start (absolute) / no genesis (relative)
+CObsAbs == {Mk(Flags(FALSE, TRUE, FALSE), TRUE, -3000, 3000, Obj("func", TRUE, "proposer", 1), Obj("func", TRUE, "proposer", 1))}
+CObsRel == {Mk(Flags(FALSE, TRUE, FALSE), FALSE, 0, 0, Obj("eager", FALSE, "proposer", 0), Obj("eager", FALSE, "proposer", 0))}
 CCorner == {Mk(Flags(FALSE, TRUE, TRUE), FALSE, 0, 0, Obj("eager", FALSE, "proposer", 0), Obj("linear", FALSE, "unknown", 0)),
             Mk(Flags(FALSE, FALSE, TRUE), FALSE, 0, 0, Obj("inc", FALSE, "proposer", 0), Obj("inc", FALSE, "unknown", 0))}
 
@@ -53,6 +56,19 @@ CornerRounds == {-1, 0, 1}
 
 (* coded corners, as observations (documentation silent): a round whose duration is <= 0 fires at once *)
 CornerFiresAtOnce == \A k \in DOMAIN calls : (calls[k].r <= 0 /\ Kind(calls[k].o) # "eager" /\ Timeout(calls[k].o, calls[k].r) <= 0) => calls[k].set = {calls[k].t}
+
+
+(* OBSERVATION (as coded, reported by the obs_ configurations; system-level consequence: known finding
+   C04-eager-timer-tie-desync).  qbft.Run enters round r at the instant the timer of round r-1 fired.  With absolute
+   deadlines (genesis + slot given: production) the first deadline of round r is dutyStart + r s whatever happened before: a
+   round r-1 that was doubled (justified PRE-PREPARE seen) ends at dutyStart + 2(r-1) s >= dutyStart + r s, so round r starts
+   with a deadline that has passed -- its channel fires at once, the round has no time at all (and without doubling every
+   round lasts 1 s, not "1s, 2s, 3s").  On relative time (constructors without genesis) every round has its r seconds. *)
+EnteredAtTimeout(k) == \E j \in 1..(k - 1) : /\ calls[j].o = calls[k].o /\ calls[j].r = calls[k].r - 1
+                                             /\ calls[j].nf > 0 /\ calls[j].fat = calls[k].t /\ calls[j].ft = calls[k].t
+QbftRoundHasTime == \A k \in DOMAIN calls :
+                      (Kind(calls[k].o) = "eager" /\ {j \in 1..(k - 1) : calls[j].o = calls[k].o /\ calls[j].r = calls[k].r} = {}
+                       /\ EnteredAtTimeout(k)) => \A a \in calls[k].set : a > calls[k].t
 
 (* Liveness: with a clock that keeps going, every armed channel whose deadline lies within the model's horizon fires
    (or is stopped). *)
